@@ -116,9 +116,9 @@ Definition opt_pids_eqb (a b : option (list pid)) : bool :=
    Every outcome observed for a call must be what Model/Resolver.v computes for
    the resolver of the call's indexes and THE DISQUALIFICATION SET THE CACHE
    MODEL SAYS THE CALL IS HANDED AFTER THIS HISTORY (for C08-F2 cases that is the
-   wrongly shared entry). Corr/C02's comparison is reused: for universes with
-   install_if it searches a legal iteration schedule reproducing the outcome
-   (skipped beyond 4 trigger names, where the search is too large). *)
+   wrongly shared entry). Corr/C02's comparison is reused: the ordered list must
+   EQUAL the model's, install_if additions included (no schedule search since
+   fix c03e0c0; every universe is compared, whatever its install_if structure). *)
 Definition is_some {A} (o : option A) : bool := match o with Some _ => true | None => false end.
 Definition flat_outcome (u : universe) (ixs : list idxid) (o : outcome) : option (option (list nat)) :=
   match o with
@@ -128,7 +128,6 @@ Definition flat_outcome (u : universe) (ixs : list idxid) (o : outcome) : option
   end.
 Definition model_result_tags (u : universe) (c : call) (handed : list pid) (obs : list outcome) : list string :=
   let R := Resolver.new_resolver (flatten u (cl_indexes c)) in
-  if Nat.ltb 4 (List.length (C02.triggers R)) then [] else
   let dq0 := flat_pids u (cl_indexes c) handed in
   flat_map (fun o => match flat_outcome u (cl_indexes c) o with
                      | None => ["mismatch:result-pid-outside-resolver"]
